@@ -19,7 +19,7 @@ Rec(k, f, nb) == [k |-> k, seg |-> b.act, load |-> Load(b), exec |-> Exec(b), as
                   aload |-> Load(nb), aexec |-> Exec(nb)] @@ f
 
 InMode(k) == \/ Mode = "all"
-             \/ Mode = "stack" /\ k \in {"EMIT", "READPC", "SEGMENT", "PHASE", "DEPHASE", "SAVE", "RESTORE", "LABEL", "RORG"}
+             \/ Mode = "stack" /\ k \in {"EMIT", "READPC", "SEGMENT", "PHASE", "DEPHASE", "SAVE", "RESTORE", "LABEL", "RORG", "CPU"}
              \/ Mode = "struct" /\ k \in {"EMIT", "RESERVE", "FIELD", "STRUCT", "ENDSTRUCT", "ALIGN", "LABEL", "ORG"}
 Do(k, f, nb) == InMode(k) /\ Ok(nb) /\ b' = nb /\ hist' = Append(hist, Rec(k, f, nb))
 
@@ -37,6 +37,7 @@ Next ==
      \/ \E s \in Segs : Ordinary /\ s # b.act /\ Do("SEGMENT", [s |-> s], MarkUsed(Segment(b, s, 0)))
      \/ \E a \in (IF Small THEN {512, Exec(b) + 64} ELSE {0, 512, 2000, Exec(b) + 64}) : Ordinary /\ Len(b.phStk[b.act]) < 3 /\ Do("PHASE", [a |-> a], MarkUsed(Phase(b, a)))
      \/ Ordinary /\ Do("DEPHASE", <<>>, MarkUsed(Dephase(b)))
+     \/ \E c \in {0, 1} : Ordinary /\ c # b.cpu /\ Do("CPU", [c |-> c], MarkUsed(Cpu(b, c, "code", 0)))
      \/ Ordinary /\ Len(b.saveStk) < 3 /\ Do("SAVE", <<>>, MarkUsed(Save(b)))
      \/ Ordinary /\ CanRestore(b) /\ Do("RESTORE", <<>>, MarkUsed(Restore(b)))
      \/ \E u \in BOOLEAN : Ordinary /\ Do("STRUCT", [u |-> u], BeginStruct(b, u))
